@@ -14,6 +14,7 @@ import (
 	"strings"
 	"time"
 
+	"verif/checks/c19"
 	"verif/internal/diff"
 	"verif/internal/oracle"
 	"verif/internal/progen"
@@ -31,6 +32,13 @@ var (
 func verdict(src string) diff.Verdict {
 	if progen.TypeCheck(src) != "" {
 		return diff.Verdict{Discard: "ill-typed"}
+	}
+	if strings.HasPrefix(os.Getenv("REDUCE_MODE"), "dbg") {
+		p, d := c19.ProbeBoth(src)
+		if p != d {
+			return diff.Verdict{Sig: "stdout", Msg: fmt.Sprintf("plain %q debug %q", p, d)}
+		}
+		return diff.Verdict{}
 	}
 	_, nat := batch.Ensure(oracle.Single(src))
 	out := pool.Run(&yrun.Job{Src: src}, time.Minute)
